@@ -670,7 +670,7 @@ Lemma step_B st o st' out : B st -> step st o = Ok (st', out) ->
   | _ => True
   end.
 Proof.
-  intros [HW HL]. destruct o as [c dt|t newc dt|t lvl dt|t dt|ids dt| |]; cbn [Sim.step]; unfold bind.
+  intros [HW HL]. destruct o as [c dt|t newc dt|t lvl dt|t dt|ids dt| | |to]; cbn [Sim.step]; unfold bind.
   - (* start *)
     unfold Sim.schedule, bind. destruct (advance st dt) as [st1|] eqn:E1; [|discriminate].
     apply advance_ok in E1 as (_ & _ & ->).
@@ -785,6 +785,7 @@ Proof.
   - (* sleep *)
     destruct (advance st (sleep_time S_)) as [st1|] eqn:E; [|discriminate].
     apply advance_ok in E as (_ & _ & ->). intro H. injection H as <- <-. split; [|exact I].
+    split; [apply (W_fields st); try reflexivity; auto | apply (LP_fields _ st); try reflexivity; auto].  - intro H. injection H as <- <-. split; [|exact I].
     split; [apply (W_fields st); try reflexivity; auto | apply (LP_fields _ st); try reflexivity; auto].
 Qed.
 
@@ -1009,7 +1010,7 @@ Lemma step_prims st o st' out : step st o = Ok (st', out) ->
   | _, _ => True
   end.
 Proof.
-  destruct o as [c dt|t newc dt|t lvl dt|t dt|ids dt| |]; cbn [Sim.step]; unfold bind.
+  destruct o as [c dt|t newc dt|t lvl dt|t dt|ids dt| | |to]; cbn [Sim.step]; unfold bind.
   - destruct (Sim.schedule S_ tbl draw st (length (trials st)) dt) as [st1|] eqn:E; [|discriminate].
     intro H. injection H as <- <-. split; [|exact I]. eapply prims_trans; [eapply schedule_prims; eauto|].
     apply prims_one. apply prim_fields. repeat split; auto.
@@ -1041,7 +1042,7 @@ Proof.
   - destruct (Sim.process_now S_ tbl draw st) as [st1|] eqn:E; [|discriminate].
     intro H. injection H as <- <-. split; [|exact I]. apply prims_one. apply prim_process. exact E.
   - destruct (advance st (sleep_time S_)) as [st1|] eqn:E; [|discriminate].
-    intro H. injection H as <- <-. split; [|exact I]. eapply advance_prims; eauto.
+    intro H. injection H as <- <-. split; [|exact I]. eapply advance_prims; eauto.  - intro H. injection H as <- <-. split; [|exact I]. apply prims_one. apply prim_fields. repeat split; auto.
 Qed.
 
 Lemma SS_map_pair t l : StronglySorted Rp l -> StronglySorted Rd (map (fun p => (t, p)) l).
@@ -1085,7 +1086,7 @@ Proof.
     destruct (IH st' HV') as [IH1 IH2]. simpl.
     destruct out as [t'| |rs sts|b]; simpl;
       try (split; [exact IH1|]; intros k i HA d Hd; eapply IH2; [eapply prims_Above; eauto|exact Hd]).
-    destruct o as [c dt|t newc dt|t lvl dt|t dt|ids dt| |]; try contradiction.
+    destruct o as [c dt|t newc dt|t lvl dt|t dt|ids dt| | |to]; try contradiction.
     destruct Hout as (st2 & Hp2 & -> & ->).
     pose proof (prims_V _ _ HV Hp2) as ([HI2 HO2] & HH2 & H22 & H32).
     pose proof (collect_in ids (nextres st2) []) as Hc.
@@ -1332,7 +1333,7 @@ Lemma step_paused st o st' out : step st o = Ok (st', out) ->
                   | _ => paused_at st
                   end.
 Proof.
-  destruct o as [c dt|t newc dt|t lvl dt|t dt|ids dt| |]; cbn [Sim.step]; unfold bind.
+  destruct o as [c dt|t newc dt|t lvl dt|t dt|ids dt| | |to]; cbn [Sim.step]; unfold bind.
   - destruct (Sim.schedule S_ tbl draw st (length (trials st)) dt) as [st1|] eqn:E; [|discriminate].
     intro H. injection H as <- _. simpl. exact (schedule_paused _ _ _ _ E).
   - destruct (nth_error (trials st) t) as [tr|]; [|discriminate].
@@ -1355,7 +1356,7 @@ Proof.
   - destruct (Sim.process_now S_ tbl draw st) as [st1|] eqn:E; [|discriminate].
     intro H. injection H as <- _. exact (process_paused _ _ _ E).
   - destruct (advance st (sleep_time S_)) as [st1|] eqn:E; [|discriminate].
-    apply advance_ok in E as (_ & _ & ->). intro H. injection H as <- _. reflexivity.
+    apply advance_ok in E as (_ & _ & ->). intro H. injection H as <- _. reflexivity.  - intro H. injection H as <- _. reflexivity.
 Qed.
 
 (* successful execution of a call sequence *)
@@ -1380,7 +1381,7 @@ Proof.
   - injection H as <-. reflexivity.
   - destruct (step st o) as [[s1 out]|e] eqn:Es; [|discriminate].
     rewrite (IH s1 st' H), (step_paused _ _ _ _ Es).
-    destruct o as [c dt|t0 newc dt|t0 [l|] dt|t0 dt|ids dt| |]; simpl; try reflexivity.
+    destruct o as [c dt|t0 newc dt|t0 [l|] dt|t0 dt|ids dt| | |to]; simpl; try reflexivity.
     rewrite lookup_set_key. reflexivity.
 Qed.
 
